@@ -6,6 +6,7 @@ import (
 	"fmt"
 	"runtime/debug"
 	"sync"
+	"time"
 
 	"github.com/ipfs/boxo/exchange"
 	blocks "github.com/ipfs/go-block-format"
@@ -51,6 +52,7 @@ type BSStep struct {
 	Offered  bool
 	Accepted bool
 	CtxAlive bool
+	Spare    time.Duration // time left until the deadline of the GetBlocks context at the offer
 }
 
 // BSItem is one wanted CID with the ordered answers of the peers.
@@ -64,9 +66,13 @@ type BSItem struct {
 
 // HonestOffered reports whether an honest block for the want was offered to the requester while
 // the caller's context was alive.
-func (it *BSItem) HonestOffered() bool {
+func (it *BSItem) HonestOffered() bool { return it.HonestOfferedWithSpare(0) }
+
+// HonestOfferedWithSpare is HonestOffered with the additional demand that at least spare was left
+// until the deadline of the request when the block was offered.
+func (it *BSItem) HonestOfferedWithSpare(spare time.Duration) bool {
 	for _, s := range it.Steps {
-		if s.Honest && s.Offered && s.CtxAlive {
+		if s.Honest && s.Offered && s.CtxAlive && s.Spare >= spare {
 			return true
 		}
 	}
@@ -449,9 +455,13 @@ func (x *BSExchange) GetBlocks(ctx context.Context, cids []cid.Cid) (<-chan bloc
 				case st.Silent:
 				default:
 					a := alive()
+					spare := time.Duration(1 << 62)
+					if dl, ok := ctx.Deadline(); ok {
+						spare = time.Until(dl)
+					}
 					acc, gone := offer(c, st.Data)
 					x.mu.Lock()
-					st.Offered, st.Accepted, st.CtxAlive = true, acc, a && !gone
+					st.Offered, st.Accepted, st.CtxAlive, st.Spare = true, acc, a && !gone, spare
 					if acc {
 						it.Delivered = true
 					}
